@@ -148,6 +148,7 @@ class Ctx:
         self.static_decls = {}                       # name -> VarDecl node (static const members)
         self.static_tables = {}                      # local static const arrays: name -> list
         self.accessors = {}                          # reference-returning accessors: name -> (field, index node, params)
+        self.ptr_accessors = {}                      # pointer-returning accessors `return field;`: name -> field (checked)
 
 class Fn:
     def __init__(self, ctx, decl, outname=None):
@@ -547,6 +548,14 @@ class Fn:
             n = skip_wrappers(n['inner'][0])
         if n['kind'] == 'MemberExpr':
             return self.member(n)
+        if n['kind'] == 'CXXMemberCallExpr':   # C13: `pvGetShortHashes()` == the array field itself (checked in translate_group)
+            try:
+                nm, _c = self.callee_name(n)
+            except TranslationError:
+                nm = None
+            if nm in self.ctx.ptr_accessors:
+                return self.ctx.ptr_accessors[nm]
+            raise TranslationError('array base is a call to %s which is not a pointer accessor' % nm)
         if n['kind'] == 'DeclRefExpr':
             nm = n['referencedDecl']['name']
             if nm in self.ctx.static_tables:
@@ -1304,6 +1313,25 @@ def translate_group(cfg, ast_text=None, repo='/repo'):
             return re.sub(r'"(id|range|loc|previousDecl|parentDeclContextId)": ("0x[0-9a-f]+"|\{[^{}]*(\{[^{}]*(\{[^{}]*\}[^{}]*)*\}[^{}]*)*\}),? ?', '', t)
         if len({norm(t) for t in targets}) > 1:
             raise TranslationError('accessor %s: overloads differ' % an)
+    for an in cfg.get('pointer_accessors', []):
+        ds = method_decls(spec, an)
+        if not ds:
+            raise TranslationError('pointer accessor %s not found' % an)
+        flds = set()
+        for d in ds:
+            body = [x for x in d['inner'] if x['kind'] == 'CompoundStmt'][0]
+            st = body.get('inner', [])
+            if len(st) != 1 or st[0]['kind'] != 'ReturnStmt':
+                raise TranslationError('pointer accessor %s is not a single return statement' % an)
+            rv = skip_wrappers(st[0]['inner'][0])
+            while rv['kind'] in ('ImplicitCastExpr', 'ParenExpr'):
+                rv = skip_wrappers(rv['inner'][0])
+            if rv['kind'] != 'MemberExpr' or rv['name'] not in ctx.fields:
+                raise TranslationError('pointer accessor %s does not return a configured array field' % an)
+            flds.add(rv['name'])
+        if len(flds) != 1:
+            raise TranslationError('pointer accessor %s: overloads differ' % an)
+        ctx.ptr_accessors[an] = flds.pop()
     bodies = []
     for spec_fn in cfg['functions']:
         if isinstance(spec_fn, dict):
